@@ -130,7 +130,7 @@ pub fn profile(name: &str) -> Profile {
             rounds: (3, 6),
             ops_per_round: (0, 10),
             p_search: 0.5,
-            n_trees: &[None, None, Some(1), Some(5), Some(2), Some(3), Some(20)],
+            n_trees: &[None, None, Some(1), Some(5), Some(2), Some(3), Some(20), Some(6), Some(7), Some(8), Some(9), Some(17)],
             split_after: &[None, None, Some(1), Some(2), Some(4), Some(7), Some(50)],
             const_cap: 0.8,
             ..base
